@@ -76,8 +76,11 @@ def inspectLoop (H : HashFn) (o : ReadOpts) (validate : Bool) : (fuel : Nat) →
             let blockLen := len - n
             if validate then
               let data := r2.take blockLen
-              if data.length < blockLen then .error .unexpectedEOF
-              else if !sumOk H c data then .error .other     -- multihash.SumStream refuses (raw error)
+              -- multihash.SumStream refuses an unknown function before it reads and an over-long
+              -- digest length before the caller can look at how much was read: raw error either way
+              if !preOk H c then .error .other
+              else if data.length < blockLen then .error .unexpectedEOF
+              else if !sumOk H c data then .error .other
               else if !verifies H c data then .error .hashMismatch
               else inspectLoop H o validate fuel (r2.drop blockLen) (acc ++ [⟨c, n, blockLen⟩])
             else
